@@ -102,11 +102,14 @@ def main():
 def finish(meta, sid, patch, demo, mdir):
     d = os.path.join(VERIF, "seeded", sid)
     os.makedirs(d, exist_ok=True)
-    shutil.copyfile(patch, os.path.join(d, "patch.diff"))
-    shutil.copyfile(demo, os.path.join(d, "demo.rs"))
+    same = os.path.abspath(mdir) == os.path.abspath(d)
+    if not same:
+        shutil.copyfile(patch, os.path.join(d, "patch.diff"))
+        shutil.copyfile(demo, os.path.join(d, "demo.rs"))
     rd = os.path.join(mdir, "README.md")
     if os.path.exists(rd):
-        shutil.copyfile(rd, os.path.join(d, "README.md"))
+        if not same:
+            shutil.copyfile(rd, os.path.join(d, "README.md"))
         meta["needs_to_manifest"] = open(rd).read()[:1500]
     with open(os.path.join(d, "meta.json"), "w") as f:
         json.dump(meta, f, indent=1)
